@@ -95,6 +95,8 @@ class DialectOb(StmtOb):
 
                 if isinstance(e, SQLLineageException):
                     bad = (d, None)
+                    if d == "impala" and self.st.kind == "ctas" and type(e).__name__ == "UnsupportedStatementException":
+                        finding = "C09-impala-create-table-as-select-unsupported"
                     break
                 raise
             if not self.compare(base, other):
